@@ -27,7 +27,7 @@ class Finders:
     else:
       return seg
 
-  RECORDS_WITH_NAME = ["E", "S", "P", "U", "G", "O", "\n"]
+  RECORDS_WITH_NAME = ["E", "S", "P", "U", "G", "O", "L", "C", "\n"]
 
   def line(self, l):
     """Search a line in a GFA.
@@ -91,8 +91,12 @@ class Finders:
 
   def _search_duplicate(self, gfa_line):
     if gfa_line.record_type == "L":
-      return self._search_link(gfa_line.oriented_from, gfa_line.oriented_to,
-                               gfa_line.alignment)
+      found = self._search_link(gfa_line.oriented_from, gfa_line.oriented_to,
+                                gfa_line.alignment)
+      if found is None:
+        # the ID tag of links belongs to the namespace of the line names
+        found = self.line(gfa_line.name)
+      return found
     elif gfa_line.record_type in self.RECORDS_WITH_NAME:
       return self.line(gfa_line.name)
     else:
